@@ -497,6 +497,7 @@ class Engine:
             run.fname = qual
             run.label = label
             run.cur_props = sp.props
+            run.top_spec = sp
             run.forced_cls = forced or {}
             try:
                 self._verify_path(run, fi, sp, cls, first=not covered)
@@ -511,6 +512,12 @@ class Engine:
                                     z3.BoolVal(False), props=tuple(set(sp.props) | {'C20'}),
                                     meta={'clause': 'arm labels are used only through equality, dict/list storage and '
                                                     'membership (%s)' % e})
+                    ob.path = list(run.path.taken)
+                    run.obligs.append(ob)
+                elif str(e).startswith('copy-universe') and not fi.module.startswith('lemma_'):
+                    nonparam.append(str(e))
+                    ob = Obligation('%s:attr.universe' % label, qual, 'attr.universe', list(run.st.pc), z3.BoolVal(False),
+                                    props=tuple(set(sp.props) | {'C19'}), meta={'clause': str(e)})
                     ob.path = list(run.path.taken)
                     run.obligs.append(ob)
                 else:
@@ -528,6 +535,11 @@ class Engine:
                             props=tuple(set(sp.props) | {'C20'}),
                             meta={'clause': 'arm labels are used only through equality, dict/list storage and membership '
                                             '(checked on every explored path by the translation itself)'})
+            ob.path = []
+            obligs.append(ob)
+            ob = Obligation('%s:attr.universe' % label, qual, 'attr.universe', [], z3.BoolVal(True),
+                            props=tuple(set(sp.props) | {'C19'}),
+                            meta={'clause': 'no attribute is assigned a lambda, generator or local function on any explored path'})
             ob.path = []
             obligs.append(ob)
         return obligs, problems
@@ -798,6 +810,80 @@ class LoopInv:
 run_isnone = smt.F('is_none', Opaque, Bool)
 RECORD_KINDS = {'real': 'real', 'int': 'int', 'bool': 'bool', 'mat': 'mat', 'rseq': 'rseq', 'opaque': 'opaque',
                 'optopaque': 'opaque', 'arm': 'arm', 'opt:scaler': 'opaque', 'scaler': 'opaque'}
+
+
+COPY_HOOKS = ('__getstate__', '__setstate__', '__reduce__', '__reduce_ex__', '__deepcopy__', '__copy__', '__getnewargs__',
+              '__getnewargs_ex__', '__slots__')
+
+
+def _stored_exprs(val):
+    """the expressions whose values end up stored when `val` is assigned: the value itself, the elements of container
+    literals / comprehensions, and the arguments of defaultdict(...) and partial(...) (which keep them)"""
+    out, todo = [], [val]
+    while todo:
+        e = todo.pop()
+        out.append(e)
+        if isinstance(e, (ast.List, ast.Tuple, ast.Set)):
+            todo += list(e.elts)
+        elif isinstance(e, ast.Dict):
+            todo += [v for v in e.values if v is not None]
+        elif isinstance(e, (ast.ListComp, ast.SetComp)):
+            todo.append(e.elt)
+        elif isinstance(e, ast.DictComp):
+            todo.append(e.value)
+        elif isinstance(e, ast.IfExp):
+            todo += [e.body, e.orelse]
+        elif isinstance(e, ast.Call):
+            fn = e.func.id if isinstance(e.func, ast.Name) else (e.func.attr if isinstance(e.func, ast.Attribute) else '')
+            if fn in ('defaultdict', 'partial'):
+                todo += list(e.args) + [k.value for k in e.keywords]
+    return out
+
+
+def static_obligations(eng):
+    """C19, repository side, decided on the AST of *every* class of the package (also those not under contract):
+    no class customises copying / pickling, no attribute or dict entry of self is assigned a lambda, generator or a
+    function defined inside a method, and no module keeps mutable state keyed by object identity."""
+    out = []
+    for cname, ci in sorted(eng.repo.classes.items()):
+        if ci.module.startswith('lemma_'):
+            continue
+        hooks = [m for m in COPY_HOOKS if m in ci.methods or m in ci.class_attrs]
+        ob = Obligation('%s.%s:copy.hooks' % (ci.module, cname), '%s.%s' % (ci.module, cname), 'copy.hooks', [],
+                        z3.BoolVal(not hooks), props=('C19',),
+                        meta={'clause': 'the class defines none of %s (found: %s)' % (', '.join(COPY_HOOKS), hooks or 'none')})
+        ob.path = []
+        out.append(ob)
+        bad = []
+        for fi in ci.methods.values():
+            local_defs = {n.name for n in ast.walk(fi.node) if isinstance(n, (ast.FunctionDef, ast.AsyncFunctionDef))
+                          and n is not fi.node}
+            for node in ast.walk(fi.node):
+                tgts, val = [], None
+                if isinstance(node, ast.Assign):
+                    tgts, val = node.targets, node.value
+                elif isinstance(node, (ast.AugAssign, ast.AnnAssign)):
+                    tgts, val = [node.target], node.value
+                if val is None:
+                    continue
+                stores_self = any(isinstance(e, ast.Attribute) and isinstance(e.value, ast.Name) and e.value.id == 'self'
+                                  for t in tgts for e in ast.walk(t))
+                if not stores_self:
+                    continue
+                for e in _stored_exprs(val):
+                    if isinstance(e, (ast.Lambda, ast.GeneratorExp)):
+                        bad.append('%s line %d: %s' % (fi.name, node.lineno, type(e).__name__))
+                    if isinstance(e, ast.Name) and e.id in local_defs:
+                        bad.append('%s line %d: local function %s' % (fi.name, node.lineno, e.id))
+                    if isinstance(e, ast.Call) and isinstance(e.func, ast.Name) and e.func.id in ('open', 'iter', 'id'):
+                        bad.append('%s line %d: %s(...)' % (fi.name, node.lineno, e.func.id))
+        ob = Obligation('%s.%s:attr.universe.static' % (ci.module, cname), '%s.%s' % (ci.module, cname), 'attr.universe', [],
+                        z3.BoolVal(not bad), props=('C19',),
+                        meta={'clause': 'no store through self of a lambda, generator expression, local function, open(), '
+                                        'iter() or id() value (found: %s)' % (bad or 'none')})
+        ob.path = []
+        out.append(ob)
+    return out
 
 
 def load_specs():
